@@ -162,7 +162,7 @@ func cmdRun(args []string) int {
 		seed, _ = strconv.Atoi(s)
 	}
 	t0 := time.Now()
-	p, err := loadProgram(*repo, filepath.Join(verifDir, "harness"))
+	p, err := loadProgramFor(*repo, filepath.Join(verifDir, "harness"), *prop)
 	if err != nil {
 		fmt.Println("ENGINE-ERROR load:", err)
 		return 2
@@ -381,7 +381,10 @@ func runReplay(repo, path string) (bool, string) {
 	}
 	defer os.RemoveAll(tmp)
 	overlay := map[string]string{}
-	files, _ := filepath.Glob(filepath.Join(verifDir, "harness", "zz_verif_*.go"))
+	files := harnessFiles
+	if files == nil {
+		files, _ = filepath.Glob(filepath.Join(verifDir, "harness", "zz_verif_*.go"))
+	}
 	for _, f := range files {
 		overlay[filepath.Join(repo, filepath.Base(f))] = f
 	}
@@ -603,7 +606,10 @@ func runWitnesses(p *Program, prop, tier string, rs []*HarnessResult) {
 	b, _ := json.Marshal(map[string]interface{}{"tier": tier, "runs": batch})
 	os.WriteFile(bf, b, 0o644)
 	overlay := map[string]string{}
-	files, _ := filepath.Glob(filepath.Join(verifDir, "harness", "zz_verif_*.go"))
+	files := harnessFiles
+	if files == nil {
+		files, _ = filepath.Glob(filepath.Join(verifDir, "harness", "zz_verif_*.go"))
+	}
 	for _, f := range files {
 		overlay[filepath.Join(p.RepoDir, filepath.Base(f))] = f
 	}
